@@ -15,7 +15,8 @@ META = {
             "given independent symbolic values and the flavour-basis tensor is extracted. It is proved, for all member values, "
             "that the rows and columns of h and hbar are exactly the identity: weight one on (h,h) and (hbar,hbar), zero to and "
             "from every other parton including gluon and photon. Since a path that never activates h is a product of such "
-            "factors and the identity block is preserved by products, h and hbar are transported unchanged end to end.",
+            "factors and the identity block is preserved by products, h and hbar are transported unchanged end to end."
+            " Every path between 3-5 flavours contains only segments and matchings within the flavour numbers of its end points (exhaustive matched_path).",
     "note": "Exhaustive over the finite configuration space, exact; member values symbolic so the statement holds for any "
             "computed kernels. The product argument is linear algebra on block structure.",
     "technique": "partial evaluation over the finite configuration space + polynomial identity testing on the block structure",
